@@ -1,7 +1,26 @@
 import IbModel.Util.Wire
-/-! Driver handlers for C07 (request kinds served for that property). -/
+import IbModel.Driver.D01
+import IbModel.Driver.PipeParseX
+/-! Driver handlers for C07: `PIPEJ mode=… canon=… src … ; xsteps` — programs with joins whose right side is not a
+fresh collection (`Model/ProgramJoinX.lean`). -/
 namespace IB.D07
+open IB IB.Wire IB.PipeParse IB.PipeParseX
 
-def handlers : List (String × (List String → String)) := []
+def handlePipeX (toks : List String) : String :=
+  match parseXReq toks with
+  | none => "BAD-OP"
+  | some q =>
+    if q.mode == "seq" || q.mode == "collect" || q.mode == "parauto" then D01.render q.canon (runSeqX q.src q.steps)
+    else if q.mode.startsWith "par:" then
+      match parseNat? (q.mode.drop 4).toString with
+      | some n => D01.render q.canon (runParX q.src q.steps n)
+      | none => "BAD-OP"
+    else if q.mode.startsWith "part:" then
+      match ((q.mode.drop 5).toString.splitOn ":").map parseNat? with
+      | [some _, some n] => D01.render q.canon (runParX q.src q.steps n)
+      | _ => "BAD-OP"
+    else "BAD-OP"
+
+def handlers : List (String × (List String → String)) := [("PIPEJ", handlePipeX)]
 
 end IB.D07
